@@ -5,6 +5,7 @@ import Driver.TreeCmd
 import Driver.ProvCmd
 import Driver.HashCmd
 import Driver.CollectCmd
+import Driver.DryCmd
 /-! `driver`: one request per line on stdin, one answer per line on stdout. -/
 namespace Driver
 
@@ -36,6 +37,9 @@ def step (st : St) (line : String) : St × String :=
   else if cmd.startsWith "collect." then
     let (s, out) := collectHandle st.collect cmd args
     ({ st with collect := s }, out)
+  else if cmd.startsWith "c10." then
+    let (s, out) := dryHandle st.engine cmd args
+    ({ st with engine := s }, out)
   else if cmd == "ping" then (st, "pong")
   else (st, "bad-op")
 
